@@ -124,6 +124,23 @@ def _gc(target):
                             shutil.rmtree(pth) if os.path.isdir(pth) else os.remove(pth)
                     except OSError:
                         pass
+            # the repository crates are path dependencies: every scratch copy of the repository (bin/selftest, bin/trypatch) leaves
+            # its own build of them behind.  Keep the most recent few, drop the rest once they are an hour old.
+            mine = []
+            for x in os.listdir(dd):
+                if re.match(r"^(lib)?bio[_-]seq", x):
+                    pth = os.path.join(dd, x)
+                    try:
+                        mine.append((os.path.getmtime(pth), pth))
+                    except OSError:
+                        pass
+            mine.sort(reverse=True)
+            for mt, pth in mine[24:]:
+                if now - mt > 3600:
+                    try:
+                        shutil.rmtree(pth) if os.path.isdir(pth) else os.remove(pth)
+                    except OSError:
+                        pass
     if os.path.isdir(WDIR):
         for x in os.listdir(WDIR):
             pth = os.path.join(WDIR, x)
@@ -154,9 +171,11 @@ def _doctests_locked(name, lib_src, features):
     env = dict(os.environ)
     env["CARGO_TARGET_DIR"] = os.path.join(facts.CACHE, "target-doctest")
     env["CARGO_NET_OFFLINE"] = "true"
+    env["CARGO_INCREMENTAL"] = "0"
     env.pop("RUSTC_WORKSPACE_WRAPPER", None)
     r = subprocess.run(["cargo", "+nightly", "test", "--doc", "--offline", "--", "--test-threads", "16"], cwd=d, env=env,
                        stdout=subprocess.PIPE, stderr=subprocess.PIPE, text=True)
+    _gc(env["CARGO_TARGET_DIR"])
     res = {}
     for m in DOCTEST_RE.finditer(r.stdout):
         res[m.group(2)] = m.group(5)
